@@ -163,3 +163,9 @@ def _(m, callee, args):
 @model(r'^proc_macro2::Span::call_site$|^Span::call_site$')
 def _(m, callee, args):
     return ('span',)
+
+
+@model(r'^syn::Error::new_spanned::<')
+def _(m, callee, args):
+    msg = deref_all(m, args[1])
+    return synerr(''.join(chr(c) if isinstance(c, int) else '?' for c in msg.cs) if isinstance(msg, RStr) else str(msg))
